@@ -226,11 +226,16 @@ def run(ctx: Ctx) -> None:
     rng = ctx.rng
     n = ctx.pick(250, 6000)
     worst = math.inf
-    for i in range(n):
+    # extreme values: a product that is exactly zero (a zero factor, or underflow) or denormal must be floored like any other
+    extremes = [(1e-8, 0.0), (1e-5, 0.0), (1e-200, 1e-200), (1e-160, 1e-165), (5e-324, 1.0), (1e-3, 5e-324), (1e-300, 1e-10), (0.0, 1e-3), (0.0, 0.0),
+                (1e-12, 1.0), (1.0, 1e-12), (1e-6, 1e-6 * (1 - 2.0 ** -53))]
+    for i in range(n + len(extremes)):
         precision = 10.0 ** rng.uniform(-15, -2)
         extra = 10.0 ** rng.uniform(-13, 2)
         if rng.random() < 0.3:       # aim at the boundary
             extra = MIN_TOL / precision * rng.choice([1.0, 1 - 2.0 ** -52, 1 + 2.0 ** -52, 0.999999, 1.000001, 0.5, 2.0])
+        if i >= n:
+            precision, extra = extremes[i - n]
         try:
             cfg = MPSConfig(precision=precision, extra_krylov_tolerance=extra, observables=[Occupation(evaluation_times=[1.0])], log_level=logging.CRITICAL)
         except Exception as ex:
